@@ -48,7 +48,7 @@ def correspondence(ctx):
     th = ctx.tier == "thorough"
     coordinator_sessions(ctx)
     hashseeds = [0, 1, 2, 3, 4, 5] if not th else list(range(16))
-    seeds = [42] if not th else [42, 7, 1234]
+    seeds = [42, 0] if not th else [42, 0, 7, 1234]        # 0 is a seed like any other
     episodes = 3 if not th else 5
     jobs = []
     for sc in SCENARIOS:
